@@ -22,12 +22,15 @@ PID = "C36"
 
 
 def execute(ex: Execution, backend: str, idle_timeout: float, n_waits: int, stack_kind: str = "in_process",
-            lifecycle_row: str = "n/a", yielding: bool = False) -> tuple[Any, list[Any]]:
+            lifecycle_row: str = "n/a", yielding: bool = False, noise: bool = False) -> tuple[Any, list[Any]]:
+    noise_sends: list[Any] = []
     sh.clear_graveyard()
     sh.reset_ids()
     ih.reset()
     v: list[Any] = []
     w = {"stack": stack_kind, "lifecycle_row": lifecycle_row}
+    if noise:
+        w["unhandled_event_sent"] = True
     cfg = RunConfig(max_actions=60, allow_time=True, pair_time=True)
     lifecycle_db = None
     if stack_kind == "dbos":
@@ -95,7 +98,8 @@ def execute(ex: Execution, backend: str, idle_timeout: float, n_waits: int, stac
             store_op_in_flight = any(g.label == "store.query" for g in h.pending_gates())
             if store_op_in_flight:
                 return  # a (yielding) store read is in flight: the operation that issued it has not finished yet
-            if hd.status == "running" and state["idle_at"] is not None and not sent_since_idle and not any(not s[2].done() for s in sends):
+            if hd.status == "running" and state["idle_at"] is not None and not sent_since_idle and not any(not s[2].done() for s in sends) \
+                    and not any(not t.done() for _, t in noise_sends):
                 idle_for = e.loop.vt - state["idle_at"]
                 if idle_for > idle_timeout + 1e-9 and not released:
                     v.append(("idle_run_not_released_after_timeout", w, f"{desc}: idle for {idle_for}s, still in memory (live loops {live})"))
@@ -123,6 +127,15 @@ def execute(ex: Execution, backend: str, idle_timeout: float, n_waits: int, stac
                 e.loop.advance(d)
 
         e.add_script([Action("clock+0.3*idle_timeout", advance)])
+        if noise:
+            # an event no step accepts (and no wait asks for), sent by a client at any point: it is activity like any other -
+            # the run is unhandled-event-idle again afterwards and must be released idle_timeout later
+            from vmc.events import Work
+
+            def send_noise() -> None:
+                noise_sends.append((e.loop.vt, e.loop.create_task(stack.service.send_event("h1", Work(uid=77)))))
+
+            e.add_script([Action("send Work#77 (no step accepts it)", send_noise)])
         idle_times: list[float] = []
         e.h.on_publish.append(lambda h, ev, ad: ih.LIVE["log"].append(("idle", "run1", e.loop.vt)) if isinstance(ev, WorkflowIdleEvent) else None)
         e.drive()
@@ -172,6 +185,9 @@ def programs(tier: str) -> list[Program]:
                                   (lambda ex, it=it, n=n, row=row: execute(ex, "memory", it, n, "dbos", row)), max_dev=None if n == 1 else (3 if q else 5)))
     ps.append(Program("in_process/memory/yielding_store/idle_timeout=5.0/waits=1", {"backend": "memory", "yielding": True, "idle_timeout": 5.0, "waits": 1},
                       (lambda ex: execute(ex, "memory", 5.0, 1, "in_process", "n/a", True)), max_dev=(3 if q else 5)))
+    for backend in (("memory",) if q else ("memory", "sqlite")):
+        ps.append(Program(f"in_process/{backend}/idle_timeout=5.0/waits=1/unhandled_event", {"backend": backend, "idle_timeout": 5.0, "waits": 1, "noise": True},
+                          (lambda ex, backend=backend: execute(ex, backend, 5.0, 1, "in_process", "n/a", False, True)), max_dev=(4 if q else None)))
     for backend in ("memory", "sqlite"):
         for it in ((0.5, 60.0) if q else (0.5, 5.0, 60.0)):
             for n in (1, 2):
@@ -182,7 +198,8 @@ def programs(tier: str) -> list[Program]:
 
 RULE = ("in-process stack: a workflow that stores state and waits for 1-2 external responses on the real server stack over "
         "MemoryWorkflowStore / SqliteWorkflowStore, idle_timeout in {0.5, (5,) 60}; each response is sent at an explorer-chosen point once "
-        "the run is idle (before the idle timer, in the same loop iteration as the timer, after the release) x all interleavings of "
+        "the run is idle (before the idle timer, in the same loop iteration as the timer, after the release), optionally an event no "
+        "step accepts sent at any point x all interleavings of "
         "sends, idle-timer firings and step completions; in every quiescent state: idle longer than idle_timeout => released (out of "
         "memory, no live control loop, idle_since set); finally every send succeeded and the run completed with the state it had "
         "stored before waiting and all responses; non-trivial = at least one schedule deviation")
